@@ -5,6 +5,7 @@
   (`harness -casecheck`) and belong to the trusted base.
 -/
 import Proofs.Canon
+import Proofs.Tags
 namespace Sod.Props
 open Sod
 
@@ -40,5 +41,18 @@ theorem C16_search_case_insensitive (E : Env) (c : Coll) (l : Loaded) (field : S
     (he : E.canonBytes d.cons s₁ = E.canonBytes d.cons s₂) :
     Coll.search E c field op (Leaf.v (Val.str s₁)) k = Coll.search E c field op (Leaf.v (Val.str s₂)) k :=
   search_case_insensitive E c l field op s₁ s₂ k i d hs hd ht he
+
+/-- tag parsing: the constraints a struct tag gives are exactly "the token occurs" (`unique` also
+    giving `index`), so a constraint is never lost or invented by the position of its token -/
+theorem C16_tags_spec (tags : List String) :
+    (Cons.ofTags tags).index = (tags.contains "index" || tags.contains "unique") ∧
+    (Cons.ofTags tags).unique = tags.contains "unique" ∧
+    (Cons.ofTags tags).upper = tags.contains "upper" ∧
+    (Cons.ofTags tags).lower = tags.contains "lower" := ofTags_spec tags
+
+theorem C16_tags_order_independent {a b : List String} (h : a.Perm b) : Cons.ofTags a = Cons.ofTags b :=
+  ofTags_perm h
+
+example : (Cons.ofTags ["lower", "unique"]).flags = "iuL" ∧ (Cons.ofTags ["unique", "lower"]).flags = "iuL" := by decide
 
 end Sod.Props
